@@ -4,6 +4,7 @@
 From stdpp Require Import gmap.
 From DS Require Import Base Decimal StreamValue Aggregators Outcome OutcomeProofs StepTheorems HistoryProofs NvHistory.
 From DS Require Import RetirementJson RetirementProofs.
+From DS Require BytesHistory PluginOutcomeBytes NvWire.
 Open Scope Z_scope.
 
 (* predecessor: whatever happens after its last report of c (further rounds, retirement), the validity start it
@@ -71,3 +72,43 @@ Example C04_nv :
   o_defs s3 !! 7 = Some nv_def /\
   map (fun r => (r_chan r, r_va r, r_ts r, r_specimen r)) (snd (reports_of nv_cf_s 3 s3)) = [(7, 15 * s + 5, 20 * s + 5, false)].
 Proof. vm_compute. repeat split; reflexivity. Qed.
+
+(* the handover laws over histories ON THE WIRE (BytesHistory: byte-level events of Plugin.Outcome linked by their bytes) *)
+Theorem C04_retirement_value_is_last_end_on_the_wire : forall h check cf (bj : BytesHistory.bevent) (rest : list BytesHistory.bevent) c rj,
+  BytesHistory.check_typed check -> Forall (BytesHistory.bvalid h check cf) (bj :: rest) -> BytesHistory.blinked (bj :: rest) -> rest <> [] ->
+  report_of cf (BytesHistory.bv_seq bj) (BytesHistory.dec_or_initial cf (BytesHistory.bv_next bj)) c rj ->
+  (forall b, In b (removelast rest) -> reportable cf (BytesHistory.dec_or_initial cf (BytesHistory.bv_next b)) c = false) ->
+  (forall b, In b rest -> ~ promotion (BytesHistory.abs_event check cf b) /\ ~ voted_out cf (BytesHistory.abs_event check cf b) c) ->
+  o_va (BytesHistory.dec_or_initial cf (BytesHistory.bv_next (last rest bj))) !! c = Some (trunc_va (c_pver cf) (r_ts rj)).
+Proof. exact BytesHistory.retirement_value_is_last_end_on_the_wire. Qed.
+Print Assumptions C04_retirement_value_is_last_end_on_the_wire.
+
+Theorem C04_promotion_adopts_on_the_wire : forall h check cf (b : BytesHistory.bevent),
+  BytesHistory.check_typed check -> BytesHistory.bvalid h check cf b -> promotion (BytesHistory.abs_event check cf b) ->
+  exists rva ob, Some ob ∈ map (PluginOutcomeBytes.obs_of_bytes check) (BytesHistory.bv_obs b) /\ ob_att ob = GoodAttest rva /\ c_has_pred cf = true /\
+    (rva <> ∅ -> forall c v, rva !! c = Some v -> ~ voted_out cf (BytesHistory.abs_event check cf b) c ->
+       o_va (BytesHistory.dec_or_initial cf (BytesHistory.bv_next b)) !! c = Some (trunc_va (c_pver cf) v)).
+Proof. exact BytesHistory.promotion_adopts_on_the_wire. Qed.
+Print Assumptions C04_promotion_adopts_on_the_wire.
+
+Theorem C04_handover_start_on_the_wire : forall h check cf (bp : BytesHistory.bevent) (rest : list BytesHistory.bevent) c v rq rva,
+  BytesHistory.check_typed check -> Forall (BytesHistory.bvalid h check cf) (bp :: rest) -> BytesHistory.blinked (bp :: rest) ->
+  promotion (BytesHistory.abs_event check cf bp) ->
+  (exists ob, Some ob ∈ map (PluginOutcomeBytes.obs_of_bytes check) (BytesHistory.bv_obs bp) /\ ob_att ob = GoodAttest rva) ->
+  (forall rr obs, accept_observations (c_has_pred cf) (map (PluginOutcomeBytes.obs_of_bytes check) (BytesHistory.bv_obs bp)) = Ok (rr, obs) -> rr = Some rva) ->
+  rva <> ∅ -> rva !! c = Some v ->
+  ~ voted_out cf (BytesHistory.abs_event check cf bp) c ->
+  (forall b, In b rest -> ~ promotion (BytesHistory.abs_event check cf b) /\ ~ voted_out cf (BytesHistory.abs_event check cf b) c) ->
+  (forall b, In b (removelast (bp :: rest)) -> reportable cf (BytesHistory.dec_or_initial cf (BytesHistory.bv_next b)) c = false) ->
+  report_of cf (BytesHistory.bv_seq (last rest bp)) (BytesHistory.dec_or_initial cf (BytesHistory.bv_next (last rest bp))) c rq ->
+  r_va rq = trunc_va (c_pver cf) v.
+Proof. exact BytesHistory.handover_start_on_the_wire. Qed.
+Print Assumptions C04_handover_start_on_the_wire.
+
+(* non-vacuity on the wire (props/NvWire.v): rounds 5 (last report of channel 7, ending at 15 s + 5 ns) and 6 (retirement) as linked
+   byte-level events; the retired outcome bytes record that instant for channel 7 *)
+Example C04_nv_on_the_wire :
+  Forall (BytesHistory.bvalid nv_h NvWire.w_check nv_cf) [NvWire.w_e5; NvWire.w_e6] /\ BytesHistory.blinked [NvWire.w_e5; NvWire.w_e6] /\
+  o_stage (BytesHistory.dec_or_initial nv_cf (BytesHistory.bv_next NvWire.w_e6)) = Retired /\
+  o_va (BytesHistory.dec_or_initial nv_cf (BytesHistory.bv_next NvWire.w_e6)) !! 7 = Some (15 * s + 5).
+Proof. destruct NvWire.w_votes as (_ & _ & _ & _ & _ & H6 & H7 & H8 & H9). exact (conj H7 (conj H8 (conj H6 H9))). Qed.
